@@ -11,6 +11,12 @@
     flag, text, tags, colour precedence and the number of 'skipping' warnings must be the model's.
 (C) a grammar of long files (<= 40 lines) is parsed by the real reader; the abstract file and the
     observed regions are validated by Trace_Ds9.tla.
+(D) per-line trace validation: the guarded hook `ds9.read.line` (regions/_utils/verif.py) logs the
+    reader's persistent variables (frame, global_meta, composite_meta, number of region records)
+    after every physical line; Trace_Ds9Steps.tla re-uses Ds9!StepLine as its only action and
+    requires the projected model state to equal the logged one after every step, for the files of
+    (B) and (C).  A divergence of the internal state is reported even when this file's output
+    happens not to show it.
 """
 import json
 import os
@@ -31,15 +37,101 @@ CHECK_DEADLOCK FALSE
 """
 
 
+STEPLOG = []          # per-line reader states recorded by the hook during the last parse_real call
+STEP_EVENTS = []      # (abstract physical lines, logged states, text) collected for Trace_Ds9Steps
+
+
+def hooks():
+    """The guarded tracing module of the implementation (machinery failure if it is missing)."""
+    try:
+        from regions._utils import verif
+    except ImportError:
+        if os.environ.get('VERIF_ALLOW_NO_HOOKS') == '1':
+            return None
+        raise tlc.TlcError('regions/_utils/verif.py (guarded tracing hooks) is missing from the tree under test')
+    if not verif.enabled():
+        raise tlc.TlcError('tracing hooks are not enabled (ASTROPY_REGIONS_VERIF=1 expected)')
+    return verif
+
+
 def parse_real(text):
     from astropy.utils.exceptions import AstropyUserWarning
 
     from regions import Regions
+    hk = hooks()
+    if hk:
+        hk.events.clear()
+    del STEPLOG[:]
     with warnings.catch_warnings(record=True) as wl:
         warnings.simplefilter('always')
-        regs = Regions.parse(text, format='ds9')
+        try:
+            regs = Regions.parse(text, format='ds9')
+        finally:
+            if hk:
+                STEPLOG.extend(f for nm, f in hk.events if nm == 'ds9.read.line')
+                hk.events.clear()
     nskip = sum(1 for w in wl if issubclass(w.category, AstropyUserWarning) and 'skipping' in str(w.message))
     return list(regs), nskip
+
+
+def physical(lines, st):
+    """The abstract lines as the reader's line splitter sees them: optional header comment, the lines, the empty tail."""
+    return ([{'k': 'comment'}] if st['header'] else []) + list(lines) + [{'k': 'blank'}]
+
+
+def _pr(d):
+    out = {'zz': 'zz'}
+    for k, v in (d or {}).items():
+        out[str(k)] = str(v[0]) if isinstance(v, list) and len(v) == 1 else str(v)
+    return out
+
+
+def record_steps(lines, st, text):
+    if hooks() is None:
+        return
+    log = [{'frame': f['frame'] if f['frame'] is not None else 'none', 'gmeta': _pr(f['global_meta']), 'cmeta': _pr(f['composite_meta']),
+            'n': f['n_region_data']} for f in STEPLOG]
+    STEP_EVENTS.append((physical(lines, st), log, text))
+
+
+def step_validation(ctx, cap):
+    """(D) Trace_Ds9Steps over the per-line logs collected so far."""
+    evs = STEP_EVENTS
+    if not evs:
+        if hooks() is None:
+            ctx.note('step_validation', 'skipped: tree without hooks (VERIF_ALLOW_NO_HOOKS=1)')
+            return
+        raise tlc.TlcError('no per-line reader states were recorded')
+    stride = max(1, len(evs) // cap)
+    evs = evs[::stride]
+    wd = tlc.workdir('c10steps')
+    path = os.path.join(wd, 'events.json')
+    with open(path, 'w') as f:
+        json.dump([{'file': e[0], 'log': e[1]} for e in evs], f)
+    res = tlc.run('Trace_Ds9Steps', cfg='Trace_Ds9Steps.cfg', dump=True, env={'TRACE_FILE': path}, tag='c10steps', timeout=2400)
+    ctx.tlc(res, 'Trace_Ds9Steps: per-line validation of the reader state logged by the hook')
+    done, steps = set(), 0
+    for st in res.states():
+        steps += 1
+        e = evs[st['t'] - 1]
+        if st['verdict'] != 'ok':
+            done.add(st['t'])
+            k = st['i'] - 1 if st['verdict'] != 'line_count' else 0
+            line = e[0][k - 1] if k else None
+            sig = (line['k'] if line and line['k'] != 'region' else (line or {}).get('shape', '-'))
+            ctx.violation(f"C10|steps|{st['verdict']}|{sig}",
+                          f"after physical line {k} ({sig}) the reader's {st['verdict']} is not the state Ds9!StepLine defines: model {st['s'] if k else '-'}, "
+                          f"logged {e[1][k - 1] if k and k <= len(e[1]) else len(e[1])}", {'text': e[2], 'line_index': k, 'logged': e[1]})
+        elif st['i'] > len(e[0]):
+            done.add(st['t'])
+    if len(done) != len(evs):
+        raise tlc.TlcError(f'Trace_Ds9Steps: {len(evs) - len(done)} traces did not reach a verdict')
+    ctx.traces += len(evs)
+    ctx.note('step_traces_validated', len(evs))
+    ctx.note('step_states', steps)
+    tlc.cleanup(res.workdir)
+    tlc.cleanup(wd)
+    del STEP_EVENTS[:]
 
 
 def line_sig(lines):
@@ -55,6 +147,8 @@ def replay(ctx, lines, out, warn, style_idx, pid='C10'):
     except Exception as ex:  # noqa
         ctx.violation(f'{pid}|raises|{type(ex).__name__}|{line_sig(lines)[:60]}', f'parsing raised {ex!r}', case)
         return True
+    if pid == 'C10':
+        record_steps(lines, st, text)
     if len(regs) != len(out):
         ctx.violation(f'{pid}|count|{line_sig(lines)[:60]}', f'{len(regs)} regions parsed, the format defines {len(out)}', case)
         return True
@@ -97,6 +191,7 @@ def run(ctx):
         tlc.cleanup(res.workdir)
     ctx.traces += n
     trace_validation(ctx)
+    step_validation(ctx, 4000 if quick else 40000)
     ctx.assumptions += ['the supported subset: frames image/icrs/fk5/j2000/fk4/b1950/galactic/ecliptic; shapes circle, ellipse, box, annulus, polygon, line, point, text, '
                         'multi-radius annulus/ellipse/box, composite; the concretiser (ds9text.py) is trusted to render abstract lines faithfully']
 
@@ -166,6 +261,7 @@ def trace_validation(ctx):
         except Exception as ex:  # noqa
             ctx.violation(f'C10|trace|raises|{type(ex).__name__}', f'parsing a generated file raised {ex!r}', {'text': text})
             continue
+        record_steps(lines, ds9text.STYLES[t % 5], text)
         events.append({'file': lines, 'warn': nskip, 'out': [observe(r) for r in regs], 'text': text})
     wd = tlc.workdir('c10trace')
     path = os.path.join(wd, 'events.json')
